@@ -162,7 +162,7 @@ func Send(self, value Object) (Object, error) {
 	} else if res, ok, err := TypeCall1(self, "send", value); ok {
 		return res, err
 	}
-	return nil, ExceptionNewf(TypeError, "'%s' object doesn't have send method", self.Type().Name)
+	return nil, ExceptionNewf(AttributeError, "'%s' object has no attribute 'send'", self.Type().Name)
 }
 
 // SequenceContains returns True if obj is in seq
